@@ -530,6 +530,8 @@ func execC14(cs *C14Case, replay bool) *c14Result {
 				res.outcome, res.detail = "unjudgeable", diff
 			} else if diff != "" {
 				res.outcome, res.detail = "decoded-different", diff
+			} else if diff = storageOrderConsistent(d); diff != "" {
+				res.outcome, res.detail = "decoded-different", diff
 			} else {
 				res.outcome = "equal"
 			}
@@ -927,4 +929,53 @@ func replayC14(c *C14Case) *Violation {
 		return nil
 	}
 	return &Violation{Property: "C14", Kind: r.outcome, FailOp: c.Format, Class: c.Layout + "/" + c.Build[0].S, Detail: r.detail}
+}
+
+// storageOrderConsistent is the second reading of a decoded tensor's logical elements: a tensor that says it
+// needs no iterator is processed by every kernel in storage order, so its storage order must be its logical
+// order (row-major, or column-major when it says so). A decoder that restores strides without the matching
+// layout flags produces a tensor that reads correctly through At and wrongly through everything else.
+func storageOrderConsistent(d *tensor.Dense) (diff string) {
+	defer func() {
+		if r := recover(); r != nil {
+			diff = fmt.Sprintf("decoded tensor cannot be read in storage order: %v", r)
+		}
+	}()
+	sh := d.Shape()
+	if d.RequiresIterator() || sh.Dims() < 2 || sh.TotalSize() < 2 {
+		return ""
+	}
+	rv := reflect.ValueOf(d.Data())
+	if rv.Kind() != reflect.Slice || rv.Len() != sh.TotalSize() {
+		return ""
+	}
+	col := d.DataOrder().IsColMajor()
+	coords := make([]int, sh.Dims())
+	for k := 0; k < rv.Len(); k++ {
+		v, err := d.At(coords...)
+		if err != nil {
+			return ""
+		}
+		if !sameElem(v, rv.Index(k).Interface()) {
+			return fmt.Sprintf("decoded tensor claims to be contiguous (order %v, strides %v) but its element %d in storage order is %v while At(%v) is %v", d.DataOrder(), d.Strides(), k, rv.Index(k).Interface(), coords, v)
+		}
+		if col {
+			for j := 0; j < len(coords); j++ {
+				coords[j]++
+				if coords[j] < sh[j] {
+					break
+				}
+				coords[j] = 0
+			}
+		} else {
+			for j := len(coords) - 1; j >= 0; j-- {
+				coords[j]++
+				if coords[j] < sh[j] {
+					break
+				}
+				coords[j] = 0
+			}
+		}
+	}
+	return ""
 }
